@@ -350,6 +350,10 @@ def run(ctx):
             "general_answers_differing_between_query_orders": unstable,
         },
         "vm_compute_cases": graphs * 7 + explicit,
+        "history_modes": "every stream varies the config history: exhaustive graphs by index mod 4, explicit cases round-robin over "
+                         "match / none / one non-empty entry missing / one surplus (the count-mismatch fallback of "
+                         "initializeChainLayers); general images also get empty-layer entries between the layers. Views and hop "
+                         "budget must not depend on it.",
         "query_orders": "general stream: every chain layer of one loaded image is asked in three orders (views ascending with "
                         "one FS object per view; views descending and names reversed on the same FS objects; name-major on "
                         "fresh FS objects); an answer that differs from the first pass is kept as an extra observation and "
